@@ -48,6 +48,8 @@ def _decide(agent, markets):
     limit = menu.get("max_consults")
     if limit is not None and k >= limit:
         return []
+    if t < menu.get("active_from", 0) or t > menu.get("active_until", 10 ** 9):
+        return []
     out = []
     for j in range(menu.get("max_orders", 1)):
         tag = f"a{aid}k{k}j{j}"
@@ -72,11 +74,14 @@ def _decide(agent, markets):
         ttl = ttls[g.choice(f"{tag}_ttl", len(ttls))] if len(ttls) > 1 else ttls[0]
         if ttl == "sym":
             ttl = g.int(f"{tag}_ttlv", 1, 3)
-        v = g.int(f"{tag}_v", 1, menu.get("vol_hi", VOL_HI))
+        v = menu["vol_fixed"] if "vol_fixed" in menu else g.int(f"{tag}_v", 1, menu.get("vol_hi", VOL_HI))
         if act == "market":
             o = Order(agent_id=aid, market_id=m.market_id, is_buy=is_buy, kind=MARKET_ORDER, volume=v, ttl=ttl)
         else:
-            p = g.int(f"{tag}_p", menu.get("price_lo", 1), menu.get("price_hi", PRICE_HI))
+            if "price_fixed" in menu:
+                p = menu["price_fixed"]
+            else:
+                p = g.int(f"{tag}_p", menu.get("price_lo", 1), menu.get("price_hi", PRICE_HI))
             if menu.get("real_prices"):
                 p = g.real(f"{tag}_pr", menu.get("price_lo", 1), menu.get("price_hi", PRICE_HI))
             o = Order(agent_id=aid, market_id=m.market_id, is_buy=is_buy, kind=LIMIT_ORDER, volume=v,
@@ -165,8 +170,10 @@ def make_run(g, settings, menu, classes=(), logger_cls=StreamLogger, on_event=No
     RUN = ctx
     ctx.logger = logger_cls()
     ctx.settings_in = settings
-    r = SequentialRunner(settings=settings, prng=SymRandom(g, "rn"), logger=ctx.logger)
-    for c in (ScriptedAgent, ScriptedHFT) + tuple(classes):
+    prng = SymRandom(g, "rn")
+    prng.on_draw = lambda kind, val: ctx.emit("draw:" + kind, None, val)
+    r = SequentialRunner(settings=settings, prng=prng, logger=ctx.logger)
+    for c in (ScriptedAgent, ScriptedHFT, ProbeAll) + tuple(classes):
         r.class_register(c)
     ctx.runner = r
     r._setup()
@@ -176,3 +183,42 @@ def make_run(g, settings, menu, classes=(), logger_cls=StreamLogger, on_event=No
 
 def holdings(sim):
     return {a.agent_id: (a.cash_amount, dict(a.asset_volumes)) for a in sim.agents}
+
+
+class ProbeAll(EventABC):
+    """recording event: hooks every occasion at all times and reports to the run context."""
+
+    def hook_registration(self):
+        hooks = []
+        for typ, before in (("order", True), ("order", False), ("cancel", True), ("cancel", False),
+                            ("execution", False), ("session", True), ("session", False),
+                            ("market", True), ("market", False)):
+            hooks.append(EventHook(event=self, hook_type=typ, is_before=before))
+        return hooks
+
+    def hooked_before_order(self, simulator, order):
+        RUN.emit("hook:order-before", None, order)
+
+    def hooked_after_order(self, simulator, order_log):
+        RUN.emit("hook:order-after", None, order_log)
+
+    def hooked_before_cancel(self, simulator, cancel):
+        RUN.emit("hook:cancel-before", None, cancel)
+
+    def hooked_after_cancel(self, simulator, cancel_log):
+        RUN.emit("hook:cancel-after", None, cancel_log)
+
+    def hooked_after_execution(self, simulator, execution_log):
+        RUN.emit("hook:execution-after", None, execution_log)
+
+    def hooked_before_session(self, simulator, session):
+        RUN.emit("hook:session-before", None, session)
+
+    def hooked_after_session(self, simulator, session):
+        RUN.emit("hook:session-after", None, session)
+
+    def hooked_before_step_for_market(self, simulator, market):
+        RUN.emit("hook:market-before", None, market)
+
+    def hooked_after_step_for_market(self, simulator, market):
+        RUN.emit("hook:market-after", None, market)
